@@ -59,6 +59,10 @@ class Meta(dict):
         for key in kwargs:
             self[key] = kwargs[key]
 
+    def __ior__(self, other):
+        self.update(other)
+        return self
+
     def setdefault(self, key, value=None):
         if key not in self:
             self[key] = value
